@@ -8,7 +8,8 @@ VERIF = os.path.dirname(os.path.dirname(os.path.abspath(__file__)))
 INTERP_NOTE = ('Trusted: TLC + CommunityModules; harness/realize.py (abstract chart -> real Statechart) and '
                'harness/driver.py (projection of the real objects); the probes injected through initial_context. '
                'Exhaustive only within the stated bounds (evidence: stages[].consts, charts); beyond them seeded '
-               'random drivers.')
+               'random drivers. Every call into the code under test runs under a watchdog: a call that does not return (or a '
+               'statechart that cannot be built through the public API) is reported as clause "returns" of the property checked.')
 
 CHECKS = {
     'C01': dict(engine='tlc-sismic', ref='6 C01', technique='TLC model checking of spec/Sismic.tla + TLC trace validation (spec/SismicTrace.tla) of replayed model edges',
@@ -28,7 +29,8 @@ CHECKS = {
                      'different regions, leaving a region); error kind and "nothing happened" evaluated by TLC on real runs.'),
     'C05': dict(engine='tlc-sismic', ref='6 C05', technique='TLC model checking of all queue/advance/execute interleavings + TLC trace validation with a ghost pending multiset',
                 text='All interleavings of queue(e, delay), clock advances and execute_once within bounds; a ghost multiset of '
-                     'pending events decides which event each real step must consume.'),
+                     'pending events decides which event each real step must consume; half of the runs start at a large absolute time, the others '
+                     'share their Statechart with a second, busy interpreter.'),
     'C06': dict(engine='tlc-sismic', ref='6 C06', technique='TLC model checking over all skeletons with history states + TLC trace validation with ghost exit snapshots',
                 text='All skeletons containing shallow/deep history states; ghost last-exit snapshots decide what each '
                      'restoration micro step of the real interpreter must enter.'),
@@ -67,7 +69,7 @@ CHECKS = {
                      'multi-line code in four build variants, field-by-field and == compared by TLC; the re-import is executed in lock step with the original.',
                 note='Trusted: TLC; harness/yaml_check.py rich projection (strings interned). String-level YAML fidelity is exercised, not modelled.'),
     'C12': dict(engine='tlc-yaml', ref='6 C12', level='model_checking', technique='TLC fault enumeration inside spec/YamlMC.tla (Accepts <=> DocSound) + every faulty document rendered to YAML, imported by the real code, outcome decided by TLC (spec/YamlTrace.tla)',
-                text='Up to 2 (quick) / 3 (thorough) faults of 20 kinds at every position of the export of every start chart; '
+                text='Up to 2 (quick) / 3 (thorough) faults of 21 kinds at every position of the export of every start chart; '
                      'the model importer (schema, DFS, add_state/add_transition guard chains of Model.tla, validate) is checked '
                      'against the declarative rules, then the real importer against both.',
                 note='Trusted: TLC; harness/yaml_check.py rendering of abstract documents to YAML text. Silently ignored keys are outside the fault space.'),
@@ -83,12 +85,14 @@ CHECKS = {
     'C19': dict(engine='tlc-bdd', ref='6 C19', technique='TLC enumeration of scenarios over spec/Bdd.tla + each scenario run through the real execute_bdd/behave + TLC decides every reported step status (spec/BddTrace.tla)',
                 text='Every scenario of up to 3 (quick) / 4 (thorough) predefined steps in the documented spelling that ends with '
                      'an assertion, true and false alike, plus seeded longer scenarios; "passed" must coincide with the documented meaning '
-                     'computed by the model; the sismic.testing predicates and Interpreter.execute(max_steps) are checked on the interpreter engine.',
+                     'computed by the model (parameter records in inline, table and mixed spelling, mutable list literals); the sismic.testing '
+                     'predicates and Interpreter.execute(max_steps) are checked on the interpreter engine.',
                 note="Trusted: TLC; behave's JSON report for the per-step status; harness/bdd_check.py rendering of steps to Gherkin."),
     'C20': dict(engine='tlc-runner', ref='6 C20', technique='TLC model checking of spec/Runner.tla (all schedules, safety + liveness under fairness) + every maximal schedule forced on the real threads by a deterministic scheduler + TLC trace validation (spec/RunnerTrace.tla)',
                 text='Runner thread against a client thread at the granularity of the scheduling points (queue split at '
                      'bisect/insert, execute_once at clock/peek/pop); safety clauses on every observed step, StopReturns/FinalStops '
-                     'under weak fairness; known finding D11 (queue races) classified by the ghost flag raced.',
+                     'under weak fairness; the client may start the runner itself (stop before start, start twice), half of the schedules run with '
+                     'interval > 0 and overrunning cycles; known finding D11 (queue races) classified by the ghost flag raced.',
                 note='Trusted: TLC; CPython GIL (switches matter only at the instrumented points); one client thread.'),
 }
 
